@@ -586,7 +586,7 @@ func runConcOnce(c ConcCase) kit.Result {
 var concSpec = kit.Spec[ConcCase]{
 	Prop: "C02", Name: "conc",
 	Rule:  "2-6 goroutines x 5-20 ops (thorough <=30) on 3-4 keys (all CID alias forms) over [two-queue 2..64] and/or [Bloom 1..4096 bytes], optional concurrent Rebuild (<=4) and an initial build racing the threads; generated yields/20-60us sleeps at the backing blockstore boundary; call/return stamped by one atomic counter; every key's history (PutMany = one put per key over the same interval), closed by quiescent reads through all accessors, is checked for linearizability against the register {absent|present} with porcupine; returned bytes/sizes and quiescent agreement with the uncached store are checked directly. non-trivial = two ops of different goroutines overlap on one key and one of them mutates",
-	Quick: 400, Thorough: 1200,
+	Quick: 500, Thorough: 2500,
 	Gen: genConc, Run: runConc, Journal: true,
 	Sample: func(c ConcCase) any {
 		n := 0
